@@ -149,7 +149,15 @@ def one_tree(run, rng, k, nconf):
         nt = nontrivial_tree(truth)
         for c in range(nconf):
             path, slabs, kw, pstyle = make_config(rng, truth, k * 1000 + c)
-            desc = dict(tree=k, slab_inds=knobs['slab_inds'], halos_per_slab=knobs['halos_per_slab'], compression=knobs['compression'], path_style=pstyle, slabs_loaded=slabs, **{a: (b if not isinstance(b, dict) else dict(b)) for a, b in kw.items()})
+            desc = dict(tree=k, slab_inds=knobs['slab_inds'], halos_per_slab=knobs['halos_per_slab'], compression=knobs['compression'], clean_layout=knobs['clean_layout'], path_style=pstyle, slabs_loaded=slabs, **{a: (b if not isinstance(b, dict) else dict(b)) for a, b in kw.items()})
+            masks = None
+            if c % 4 == 3 and not kw.get('passthrough'):
+                # a filter function delivering predetermined per-superslab masks (re-indexing after compaction)
+                from .c03 import MaskFilter
+
+                masks = [rng.random(truth['slabs'][s]['H']) < [0.0, 0.5, 0.9, 1.0][int(rng.integers(0, 4))] for s in slabs]
+                kw['filter_func'] = MaskFilter(masks)
+                desc['filter_kept'] = [int(m.sum()) for m in masks]
             run.progress(desc)
             run.ev()
             cat, err = catoracle.load(path, **kw)
@@ -165,7 +173,7 @@ def one_tree(run, rng, k, nconf):
                 run.nt((k, c))
             if k < 2 and c < 2:
                 run.sample(desc)
-            if catoracle.check_subsamples(run, cat, truth, slabs, kw['cleaned'], resolved_AB(kw['subsamples']), desc=desc, passthrough=bool(kw.get('passthrough'))):
+            if catoracle.check_subsamples(run, cat, truth, slabs, kw['cleaned'], resolved_AB(kw['subsamples']), masks=masks, desc=desc, passthrough=bool(kw.get('passthrough'))):
                 if run.too_many():
                     return
     finally:
